@@ -369,3 +369,7 @@ reg["C13"]["harnesses"] += [{"name": "VH_C18_Ops", "pkg": "internal/app/plugins/
 # C20: searches, claims, notifications and dispatched messages
 reg["C20"]["harnesses"] += co(["VH_P_Search"], ["C01:body"], opts=SEARCHOPT, optsT=SEARCHOPT_T, reach=REACH_P, pgquick=False)
 reg["C20"]["harnesses"].append({"name": "VH_SN_Process", "pkg": "internal/app/subsystems/aio/sender", "labels": ["C19:body", "C19:notification-carries", "C19:message-type"], "reach": ["delivered"]})
+
+reg["C11"]["harnesses"].append({"name": "VH_C11_TickBackground", "pkg": "internal/kernel/system", "labels": ["C11:"], "reach": ["done"]})
+reg["C11"]["explanation"] += "; the real System.Tick admits every background coroutine within a bounded number of idle ticks for a scheduler intake capacity of 1 or 2 (fewer than the number of background coroutines)"
+reg["C11"]["outside"] = [o for o in reg["C11"]["outside"] if "System.Tick re-add predicate" not in o]
